@@ -26,6 +26,7 @@ class Opts:
         self.forwarders = 0.0      # probability that a clause is a pure forwarder  p(..) :- q(..).
         self.open_leaves = 0.0     # probability that a leaf fact's argument is a structure with fresh variables
         self.deep = False
+        self.bag_shapes = 0.0      # probability that the bag of a generated findall/3 is not a plain variable (see bag_shape)
         self.__dict__.update(kw)
 
 def V(n): return ['var', n]
@@ -163,6 +164,9 @@ def _meta(rng, o, callees, vars_):
     elif r < 0.6:
         tmpl = rng.choice([V(rng.choice(vars_)), F('t', V(rng.choice(vars_)), V(rng.choice(vars_)))]) if vars_ else A('x')
         m = ['call', 'findall', [tmpl, gt, V(rng.choice(vars_ + ['L'])) if vars_ else V('L')]]
+        if o.bag_shapes and rng.random() < o.bag_shapes:
+            tv = _tvars(tmpl)
+            m[2][2] = bag_shape(rng, vars_, fresh=('T', 'L'), atoms=ATOMS[:3] + ['q0_0', 'q0_1', 'q1_0'], tails=[v for v in vars_ if v not in tv])
     elif r < 0.8 and g[2] and g[1] not in ('=', '\\='):
         k = rng.randrange(1, len(g[2]) + 1)
         part = ['fun', g[1], g[2][:-k]] if g[2][:-k] else A(g[1])
@@ -449,3 +453,266 @@ def has_opaque_cut(body, opaque=False):
     if k == 'not':
         return has_opaque_cut(body[1], True)
     return False
+
+# ------------------------------------------------------------------ meta-call builtins whose arguments share variables with the goal
+# (added for C09, round 3).  The property says what call/N, once/1, findall/3, = and \= compute from the answers of the
+# goal "on its own"; an implementation can get that wrong only where the builtin's OTHER arguments (the bag of findall,
+# the extra arguments of call/N, the terms of = and \=) interact with the running goal.  So: goals whose answers - their
+# number, their values, the existence of LATER answers - depend on the binding state of the caller's variables, called
+# through the builtins with arguments of every shape that share those variables.
+
+META_ATOMS = ['a', 'b', 'c']
+
+def bag_shape(rng, shared, fresh=('T', 'L'), atoms=META_ATOMS, anon=True, tails=None):
+    """a bag argument for findall/3: unbound variable, closed list (length 0..3), partial list [..|T], rarely not a list.
+    `shared` are variables that occur in the template / the goal / the clause head; elements and tails are drawn from them,
+    from fresh variables and from the atoms the goals answer with."""
+    shared = list(shared)
+    tails = shared if tails is None else list(tails)       # variables that may be the whole bag / the tail of a partial list
+    def elem():
+        q = rng.random()
+        if q < 0.40: return A(rng.choice(atoms))
+        if q < 0.70 and shared: return V(rng.choice(shared))
+        if q < 0.80 and anon: return V('_')
+        if q < 0.88: return V(rng.choice(list(fresh)))
+        if q < 0.94 and shared: return F('f', V(rng.choice(shared)))
+        return A(rng.choice(atoms + ['z']))
+    r = rng.random()
+    if r < 0.18:
+        return V(rng.choice(list(fresh) + tails))
+    if r < 0.42:
+        # only atoms: a closed list, or a ground prefix before a fresh tail
+        items = [A(rng.choice(atoms)) for _ in range(rng.choice([0, 1, 1, 2, 2, 3]))]
+        if items and rng.random() < 0.35:
+            out = V(rng.choice(list(fresh)))
+            for x in reversed(items):
+                out = ['pair', x, out]
+            return out
+        return ['list', items]
+    if r < 0.60:
+        return ['list', [elem() for _ in range(rng.choice([0, 1, 1, 2, 2, 3]))]]
+    if r < 0.95:
+        tail = V(rng.choice(list(fresh) + list(fresh) + tails + (['_'] if anon else [])))
+        out = tail
+        for _ in range(rng.choice([1, 1, 1, 2, 2, 3])):
+            out = ['pair', elem(), out]
+        return out
+    return rng.choice([A('a'), F('f', V(rng.choice(shared or ['T']))), A('[]')])
+
+def _sensitive_clause(rng, name, lower):
+    """one clause of a predicate name(V, X) whose answers depend on what V (and X) are bound to at the call"""
+    q = rng.random()
+    h1 = V('V') if q < 0.72 else A(rng.choice(META_ATOMS)) if q < 0.87 else V('_') if q < 0.95 else F('f', V('V'))
+    struct = rng.random() < 0.3       # X gets a structure around V in this clause, or (else) may be aliased to V: never both (cyclic)
+    q = rng.random()
+    h2 = V('X') if q < 0.66 else A(rng.choice(META_ATOMS)) if q < 0.78 else V('V') if q < 0.90 and not struct else F('f', V('V')) if struct else V('X')
+    at = lambda: A(rng.choice(META_ATOMS))
+    def g():
+        q = rng.random()
+        if q < 0.20 and not struct: return ['call', '=', [V('X'), V('V')]]      # the caller's own variable ends up inside the answer
+        if q < 0.32: return ['call', '=', [V('X'), at()]]
+        if q < 0.40 and struct: return ['call', '=', [V('X'), rng.choice([F('f', V('V')), ['list', [V('V')]], F('g', V('V'), V('W'))])]]
+        if q < 0.50: return ['call', '=', [V('V'), at()]]
+        if q < 0.66: return ['call', '\\=', [V('V'), at()]]                     # succeeds only if V is bound, to something else
+        if q < 0.71: return ['call', '\\=', [V('X'), rng.choice([at(), V('V')])]]
+        if q < 0.83: return ['call', 'k', rng.choice([[V('V'), V('X')], [V('X'), V('V')], [V('V'), V('_')], [V('V'), at()]])]
+        if q < 0.87: return ['not', ['call', '=', [V('V'), at()]]]
+        if q < 0.93: return ['or', ['if', ['call', '=', [V('V'), at()]], ['call', '=', [V('X'), at()]]], ['call', '=', [V('X'), at()]]]
+        if lower and not struct: return ['call', rng.choice(lower), rng.choice([[V('V'), V('X')], [V('X'), V('V')]])]
+        return ['call', '=', [V('X'), at()]]
+    n = rng.choice([0, 1, 1, 2, 2, 2, 3])
+    return [name, [h1, h2], _conj([g() for _ in range(n)]) if n else ['true']]
+
+def _meta_goal_term(rng, sens, hv, lv):
+    """(name, args) of the goal handed to a builtin; arguments are mostly the caller's variables"""
+    def arg(pool, pv=0.8):
+        q = rng.random()
+        if q < pv: return V(rng.choice(pool))
+        if q < pv + 0.12: return A(rng.choice(META_ATOMS))
+        return F('f', V(rng.choice(pool)))
+    q = rng.random()
+    if q < 0.86:
+        a1, a2 = arg(hv + hv + lv), arg(lv + lv + hv)
+        for _ in range(5):
+            if set(_tvars(a1)) & set(_tvars(a2)) and rng.random() < 0.9:
+                a2 = arg(lv + lv + hv)
+        return (rng.choice(sens) if q < 0.78 else 'k'), [a1, a2]
+    lhs = arg(hv + lv, 0.9)
+    t = rand_shared_term(rng, hv + lv)
+    if lhs[0] == 'var' and t[0] != 'var':
+        t = subst_var(t, lhs[1], rng.choice([x for x in hv + lv + ['W'] if x != lhs[1]]))       # no cyclic term
+    return ('=' if q < 0.93 else '\\='), [lhs, t]
+
+def subst_var(t, old, new):
+    if t[0] == 'var': return V(new) if t[1] == old else t
+    if t[0] == 'fun': return ['fun', t[1], [subst_var(a, old, new) for a in t[2]]]
+    if t[0] == 'list': return ['list', [subst_var(a, old, new) for a in t[1]]]
+    if t[0] == 'pair': return ['pair', subst_var(t[1], old, new), subst_var(t[2], old, new)]
+    return t
+
+def _tvars(t, acc=None):
+    acc = [] if acc is None else acc
+    if t[0] == 'var': acc.append(t[1])
+    elif t[0] == 'fun': [_tvars(a, acc) for a in t[2]]
+    elif t[0] == 'list': [_tvars(a, acc) for a in t[1]]
+    elif t[0] == 'pair': _tvars(t[1], acc); _tvars(t[2], acc)
+    return acc
+
+def rand_shared_term(rng, pool):
+    q = rng.random()
+    if q < 0.25: return V(rng.choice(pool))
+    if q < 0.40: return A(rng.choice(META_ATOMS))
+    if q < 0.65: return F('f', V(rng.choice(pool)))
+    if q < 0.85: return F('g', V(rng.choice(pool)), rng.choice([V(rng.choice(pool)), A(rng.choice(META_ATOMS))]))
+    return ['list', [V(rng.choice(pool)), rng.choice([V(rng.choice(pool)), A(rng.choice(META_ATOMS))])]]
+
+def meta_shared_goal(rng, sens, hv, lv):
+    """a body fragment [pre..., meta-goal] in which a builtin is applied to a goal that shares variables with the
+    builtin's other arguments; the goal is written inline or arrives through one or two variables bound at run time"""
+    name, args = _meta_goal_term(rng, sens, hv, lv)
+    goal_term = ['fun', name, args]
+    pre = []
+    via = rng.random() < 0.35
+    def through(t):
+        if not via:
+            return t
+        pre.append(['call', '=', [V('G'), t]])
+        if rng.random() < 0.25:
+            pre.append(['call', '=', [V('G2'), V('G')]])
+            return V('G2')
+        return V('G')
+    goal_vars = [a[1] for a in args if a[0] == 'var']
+    r = rng.random()
+    if r < 0.50:
+        q = rng.random()
+        tv = goal_vars or lv
+        if q < 0.55: tmpl = V(rng.choice(tv))
+        elif q < 0.80: tmpl = F('t', V(rng.choice(tv)), V(rng.choice(tv + hv)))
+        elif q < 0.90: tmpl = ['list', [V(rng.choice(tv)), V(rng.choice(hv + lv))]]
+        else: tmpl = rng.choice([A('x'), V(rng.choice(hv))])
+        sh = sorted(set(hv + goal_vars + lv[:2]))
+        bag = bag_shape(rng, sh, tails=[v for v in sh if v not in _tvars(tmpl)])
+        if rng.random() < 0.3 and name not in ('=', '\\='):
+            # the goal itself goes through call/N inside findall
+            k = rng.randrange(1, len(args) + 1)
+            part = ['fun', name, args[:-k]] if args[:-k] else A(name)
+            inner = ['fun', 'call', [through(part)] + args[-k:]]
+            m = ['call', 'findall', [tmpl, inner, bag]]
+        else:
+            m = ['call', 'findall', [tmpl, through(goal_term), bag]]
+    elif r < 0.62:
+        m = ['call', 'once', [through(goal_term)]]
+    elif r < 0.86:
+        k = rng.randrange(0, len(args) + 1) if name not in ('=', '\\=') else rng.choice([0, 2]) if name == '=' else 0
+        part = (['fun', name, args[:len(args) - k]] if args[:len(args) - k] else A(name))
+        m = ['call', 'call', [through(part)] + args[len(args) - k:]]
+    elif r < 0.91:
+        m = ['not', ['call', 'call', [through(goal_term)]]]
+    elif r < 0.95:
+        m = ['call', 'once', [['fun', 'call', [through(goal_term)]]]]
+    else:
+        m = ['call', name, args]
+    return pre, m
+
+def gen_meta_program(rng):
+    """see the comment above.  Layout: a fact table k/2; `sensitive` predicates s0.. (arity 2, several clauses, no recursion,
+    only downward calls); callers t0.. whose bodies are  pre-bindings, BUILTIN(goal sharing variables), observations;
+    queries with unbound / shared / bound / list arguments, and queries of the builtins themselves through YP.query."""
+    clauses = []
+    for _ in range(rng.randrange(2, 5)):
+        q = rng.random()
+        if q < 0.70: row = [A(rng.choice(META_ATOMS)), A(rng.choice(META_ATOMS + ['z']))]
+        elif q < 0.85: row = [V('K'), V('K')]
+        else: row = [V('_'), A(rng.choice(META_ATOMS))]
+        clauses.append(['k', row, ['true']])
+    ns = rng.randrange(1, 4)
+    sens = ['s%d' % i for i in range(ns)]
+    at = lambda: A(rng.choice(META_ATOMS))
+    exposers = []
+    for i, name in enumerate(sens):
+        if rng.random() < 0.5:
+            exposers.append(name)
+            # an answer that leaves the caller's own variable inside the instance, then answers that exist, or have their
+            # value, only for certain bindings of that variable
+            q = rng.random()
+            if q < 0.5: clauses.append([name, [V('V'), V('X')], ['call', '=', [V('X'), V('V')]]])
+            elif q < 0.7: clauses.append([name, [V('V'), V('V')], ['true']])
+            elif q < 0.85: clauses.append([name, [V('V'), V('X')], ['call', '=', [V('X'), F('f', V('V'))]]])
+            else: clauses.append([name, [V('V'), F('f', V('V'))], ['true']])
+            for _ in range(rng.choice([1, 1, 2, 3])):
+                q = rng.random()
+                if q < 0.35: test = ['call', '\\=', [V('V'), at()]]
+                elif q < 0.6: test = ['call', '=', [V('V'), at()]]
+                elif q < 0.75: test = ['call', 'k', [V('V'), V('_')]]
+                elif q < 0.85: test = ['not', ['call', '=', [V('V'), at()]]]
+                else: test = None
+                if test is None:
+                    clauses.append([name, [V('V'), V('X')], ['or', ['if', ['call', '=', [V('V'), at()]], ['call', '=', [V('X'), at()]]], ['call', '=', [V('X'), at()]]]])
+                else:
+                    clauses.append([name, [V('V'), V('X')], ['and', test, ['call', '=', [V('X'), at()]]]])
+            continue
+        for _ in range(rng.choice([1, 2, 2, 2, 3, 3, 4])):
+            clauses.append(_sensitive_clause(rng, name, sens[i + 1:]))
+    sens_all = sens
+    sens = sens + exposers + exposers      # goals handed to the builtins: more often one of these
+    callers = []
+    for i in range(rng.randrange(2, 5)):
+        ar = rng.choice([1, 2, 2, 3])
+        hv = ['A', 'B', 'C'][:ar]
+        lv = ['X', 'Y']
+        goals = []
+        q = rng.random()
+        if q < 0.12 and ar > 1: goals.append(['call', '=', [V(hv[0]), V(hv[1])]])
+        elif q < 0.20: goals.append(['call', '=', [V(rng.choice(hv)), A(rng.choice(META_ATOMS))]])
+        elif q < 0.32: goals.append(['call', rng.choice(sens), [V(rng.choice(hv)), V(rng.choice(hv + lv))]])
+        pre, m = meta_shared_goal(rng, sens, hv, lv)
+        goals += pre
+        if pre and rng.random() < 0.25:
+            goals.append(['call', 'k', [V(rng.choice(hv)), V('_')]])       # the builtin is re-entered with the same goal term
+        goals.append(m)
+        for _ in range(rng.choice([0, 0, 1, 1, 2])):
+            q = rng.random()
+            v = V(rng.choice(hv + lv))
+            if q < 0.4: goals.append(['call', '=', [v, A(rng.choice(META_ATOMS))]])
+            elif q < 0.6: goals.append(['call', '\\=', [v, A(rng.choice(META_ATOMS))]])
+            elif q < 0.8: goals.append(['call', rng.choice(sens), [v, V(rng.choice(hv + lv))]])
+            else: goals.append(['call', '=', [v, V(rng.choice(hv))]])
+        head = [V(x) for x in hv]
+        if rng.random() < 0.1:
+            head[rng.randrange(ar)] = ['pair', V('H'), V('T')]
+        clauses.append(['t%d' % i, head, _conj(goals)])
+        callers.append(('t%d' % i, ar))
+    queries = []
+    def qarg():
+        q = rng.random()
+        if q < 0.55: return V('Q%d' % rng.randrange(0, 3))
+        if q < 0.75: return A(rng.choice(META_ATOMS))
+        if q < 0.83: return F('f', V('Q%d' % rng.randrange(0, 2)))
+        if q < 0.93: return bag_shape(rng, ['Q0', 'Q1'], fresh=('Q2', 'Q3'), anon=False)
+        return ['list', []]
+    for name, ar in callers:
+        queries.append([name, [V('Q%d' % j) for j in range(ar)]])
+        for _ in range(2):
+            queries.append([name, [qarg() for _ in range(ar)]])
+    # the builtins themselves, through the API
+    qv = ['Q0', 'Q1']
+    for _ in range(rng.choice([1, 2, 2, 3])):
+        name, args = _meta_goal_term(rng, sens, qv, qv)
+        gt = ['fun', name, args]
+        r = rng.random()
+        if r < 0.5:
+            gvs = [a[1] for a in args if a[0] == 'var'] or qv
+            tmpl = V(rng.choice(gvs)) if rng.random() < 0.6 else F('t', V(rng.choice(gvs)), V(rng.choice(qv)))
+            queries.append(['findall', [tmpl, gt, bag_shape(rng, qv, fresh=('Q2', 'Q3'), anon=False, tails=[v for v in qv if v not in _tvars(tmpl)])]])
+        elif r < 0.62:
+            queries.append(['once', [gt]])
+        elif r < 0.85 and name not in ('=', '\\='):
+            k = rng.randrange(0, 3)
+            queries.append(['call', [['fun', name, args[:2 - k]] if args[:2 - k] else A(name)] + args[2 - k:]])
+        else:
+            t1 = rand_shared_term(rng, qv)
+            t2 = rand_shared_term(rng, qv)
+            if t1[0] == 'var' and t2[0] != 'var': t2 = subst_var(t2, t1[1], 'Q2')
+            if t2[0] == 'var' and t1[0] != 'var': t1 = subst_var(t1, t2[1], 'Q2')
+            queries.append([rng.choice(['=', '\\=']), [t1, t2]])
+    return {'clauses': clauses, 'queries': queries}
